@@ -159,10 +159,16 @@ pub fn gen_dur(g: &mut G<'_>, max_secs: u64) -> (u64, u32) {
 
 pub fn gen_f32_bits(g: &mut G<'_>) -> u32 {
     loop {
-        let b = match g.weighted(&[3, 3, 4]) {
+        let b = match g.weighted(&[3, 3, 3, 3]) {
             0 => *g.pick(&[0u32, 0x8000_0000, 0x3f80_0000, 0xbf80_0000, 1, 0x007f_ffff, 0x0080_0000, 0x7f7f_ffff, 0xff7f_ffff, 0x3dcc_cccd, 0x4b80_0000, 0x5f00_0000]),
             1 => (g.irange(-1000, 1000) as f32 / *g.pick(&[1.0f32, 2.0, 10.0, 3.0, 1000.0])).to_bits(),
-            _ => g.raw(),
+            2 => g.raw(),
+            _ => {
+                let j = g.irange(-3, 16) as f32 / 16.0;
+                let base = if g.coin() { 2f32.powi(g.irange(-40, 40) as i32) } else { 10f32.powi(g.irange(-12, 12) as i32) };
+                let v = base * (1.0 + j);
+                (if g.chance(1, 3) { -v } else { v }).to_bits()
+            }
         };
         if f32::from_bits(b).is_finite() {
             return b;
@@ -172,7 +178,7 @@ pub fn gen_f32_bits(g: &mut G<'_>) -> u32 {
 
 pub fn gen_f64_bits(g: &mut G<'_>) -> u64 {
     loop {
-        let b = match g.weighted(&[3, 3, 4]) {
+        let b = match g.weighted(&[3, 3, 3, 3]) {
             0 => *g.pick(&[
                 0u64,
                 1 << 63,
@@ -188,7 +194,15 @@ pub fn gen_f64_bits(g: &mut G<'_>) -> u64 {
                 0x444b_1ae4_d6e2_ef50,
             ]),
             1 => (g.irange(-100_000, 100_000) as f64 / *g.pick(&[1.0f64, 2.0, 10.0, 3.0, 1000.0, 1e9])).to_bits(),
-            _ => g.u64_any(),
+            2 => g.u64_any(),
+            _ => {
+                // just above / below powers of two and ten: where integer conversions, digit counts and
+                // formatting modes change (2^53, 2^63, 2^64, 1e15, 1e16, 1e19, 1e21 ...)
+                let j = g.irange(-3, 16) as f64 / 16.0;
+                let base = if g.coin() { 2f64.powi(g.irange(-70, 70) as i32) } else { 10f64.powi(g.irange(-25, 25) as i32) };
+                let v = base * (1.0 + j);
+                (if g.chance(1, 3) { -v } else { v }).to_bits()
+            }
         };
         if f64::from_bits(b).is_finite() {
             return b;
